@@ -60,6 +60,8 @@ pub fn docs() -> Vec<(String, String)> {
         ("overlap".into(), doc("V50", &format!("<AR-PACKAGES>{}</AR-PACKAGES>", pkg("a", "<ELEMENTS><I-SIGNAL><SHORT-NAME>s</SHORT-NAME></I-SIGNAL></ELEMENTS>")))),
         // diverges below a non-splittable element: merge conflict
         ("conflict".into(), doc("V50", &format!("<AR-PACKAGES>{}</AR-PACKAGES>", pkg("a", "<CATEGORY>zzz</CATEGORY><ELEMENTS><SYSTEM-SIGNAL><SHORT-NAME>s</SHORT-NAME><DYNAMIC-LENGTH>true</DYNAMIC-LENGTH></SYSTEM-SIGNAL></ELEMENTS>")))),
+        // a child element that does not exist in the file's version: accepted by a lenient load only
+        ("foreign".into(), doc("V401", &format!("<AR-PACKAGES>{}</AR-PACKAGES>", pkg("a", "<SHORT-NAME-FRAGMENTS/><ELEMENTS><SYSTEM-SIGNAL><SHORT-NAME>s</SHORT-NAME></SYSTEM-SIGNAL></ELEMENTS>")))),
         ("lexerr".into(), doc("V50", "<AR-PACKAGES><AR-PACKAGE><SHORT-NAME>a</SHORT-NAME></AR-PACKAGE><</AR-PACKAGES>")),
         ("parseerr".into(), doc("V50", "<AR-PACKAGES><AR-PACKAGE><SHORT-NAME>a</SHORT-NAME><BOGUS/></AR-PACKAGE></AR-PACKAGES>")),
         ("late_parseerr".into(), doc("V50", &format!("<AR-PACKAGES>{}<AR-PACKAGE><SHORT-NAME>1bad</SHORT-NAME></AR-PACKAGE></AR-PACKAGES>", pkg("b", "")))),
@@ -252,7 +254,7 @@ fn choose(w: &World, rng: &mut Rng, docs: &[(String, String)], loadno: &mut usiz
             a["name"] = json!(if rng.chance(10) { "f1".to_string() } else { format!("{name}_{loadno}") });
             let _ = text;
             a["doc"] = json!(name);
-            a["strict"] = json!(rng.chance(70));
+            a["strict"] = json!(if name == "foreign" { false } else { rng.chance(70) });
             a["p"] = json!(0);
         }
         "Duplicate" => {
